@@ -452,6 +452,11 @@ func (vt *Model) print(seq ansi.Print) {
 	if vt.mode.irm {
 		line := vt.activeScreen[rw]
 		for i := vt.margin.right; i > col; i -= 1 {
+			if i-column(w) < col {
+				// the remaining cells are covered by the new
+				// character
+				break
+			}
 			line[i] = line[i-column(w)]
 		}
 	}
